@@ -405,6 +405,23 @@ func operations() []operation {
 				w.track("builder-second-product", w.builder.Build())
 			})
 		}},
+		{"linksystem-loads-other-blocks", func(w *world) {
+			// another link system stores and loads other (shorter) blocks with every load function
+			st := lsx.NewStore()
+			ls := lsx.NewLinkSystem(st)
+			for _, blk := range []string{"OTHERBLK", "x", "another block, a longer one, of raw bytes"} {
+				for _, codec := range []uint64{0x55, 0x71} {
+					p := lsx.Proto{Version: 1, Codec: codec, MhType: mh.SHA2_256, MhLength: -1}
+					l, err := ls.Store(linking.LinkContext{}, p.LP(), ref.Basic(ref.Bytes(blk)))
+					if err != nil {
+						continue
+					}
+					ls.LoadRaw(linking.LinkContext{}, l)
+					ls.LoadPlusRaw(linking.LinkContext{}, l, basicnode.Prototype.Any)
+					ls.Load(linking.LinkContext{}, l, basicnode.Prototype.Any)
+				}
+			}
+		}},
 		{"walk-all", func(w *world) {
 			sel, _ := trav.Rec(-1, trav.Un(trav.M(), trav.All(trav.Edge()))).Compile()
 			traversal.WalkAdv(w.nodes[0].n, sel, func(traversal.Progress, datamodel.Node, traversal.VisitReason) error { return nil })
@@ -563,7 +580,7 @@ func Main(r *core.Run) {
 	if !quick {
 		depth = 3
 	}
-	r.Rule(fmt.Sprintf("%d producers (every basicnode builder route class incl. AssignNode shortcuts, oversize hints, Reset-reused builders; dag-cbor/dag-json decoders; Load/LoadPlusRaw with raw and dag-cbor; NewBytesFromReader; bytes builder fed a large-bytes node; subset matches over plain/reader-backed bytes and strings; focused and walking transform results and their inputs; bindnode nodes of one type per representation strategy made by the type-level builder, the representation builder and the decoder, and nodes of the checked-in generated package, tracked through both views) × every sequence of ≤%d operations out of %d (complete read, encode ×2, DeepEqual, partial/seeked large-bytes reads, interleaved iterators, copy/AssignNode into other builders that are then extended or reused, Reset+reuse of the producing builder, walks, subset-matching walks, transforms); after every step every tracked node (the product and everything derived from or sharing structure with it) is read completely twice and compared with its snapshot. Non-trivial = sequences of ≥2 operations; distinct by (producer, sequence).", len(ps), depth, len(ops)))
+	r.Rule(fmt.Sprintf("%d producers (every basicnode builder route class incl. AssignNode shortcuts, oversize hints, Reset-reused builders; dag-cbor/dag-json decoders; Load/LoadPlusRaw with raw and dag-cbor; NewBytesFromReader; bytes builder fed a large-bytes node; subset matches over plain/reader-backed bytes and strings; focused and walking transform results and their inputs; bindnode nodes of one type per representation strategy made by the type-level builder, the representation builder and the decoder, and nodes of the checked-in generated package, tracked through both views) × every sequence of ≤%d operations out of %d (complete read, encode ×2, DeepEqual, partial/seeked large-bytes reads, interleaved iterators, copy/AssignNode into other builders that are then extended or reused, Reset+reuse of the producing builder, stores and loads of other blocks through another link system, walks, subset-matching walks, transforms); after every step every tracked node (the product and everything derived from or sharing structure with it) is read completely twice and compared with its snapshot. Non-trivial = sequences of ≥2 operations; distinct by (producer, sequence).", len(ps), depth, len(ops)))
 	r.Assume("the harness never writes into byte slices it passed in or was handed back")
 	var seqs [][]int
 	var rec func(cur []int)
